@@ -8,7 +8,7 @@ from tv.props import c13 as T
 ID = 'C33'
 LEVEL = 'exploration'
 QUICK_S = 45
-THOROUGH_S = 600
+THOROUGH_S = 300
 TECHNIQUE = ('runtime monitoring: a processor is made to fail on one chosen object / match whose span is known from the harness '
              'layout; filename, line, col, nchar of the TextXError that reaches the caller are compared with that ground truth')
 RULE = ('tree models (generator of C13) printed with random indentation, blank lines and comments, with the span of every '
@@ -289,7 +289,7 @@ def classify(bad, is_match, variant):
 
 
 def run(ctx):
-    for i in ctx.indices(6000 if ctx.tier == 'quick' else 40000, 'random'):
+    for i in ctx.indices(6000 if ctx.tier == 'quick' else 10 ** 7, 'random'):
         one(ctx, i)
 
 
